@@ -310,8 +310,6 @@ class Gen:
                 row.append(k)
                 left -= k
             row.append(left)
-            # value 0 of every draw would give the last column all the weight: rotate so that the
-            # shrink target is a permutation-like matrix, still asymmetric
             rows.append([["f", x, 8] for x in row])
         return rows
 
